@@ -369,6 +369,9 @@ func (fr *Frame) dispatchCall2(instr ssa.Instruction, cc *ssa.CallCommon, pos to
 	if sk := fr.sortedKeysIdiom(fn, cc); sk != nil {
 		return *sk
 	}
+	if lv := fr.lockCall(cc, pos); lv != nil {
+		return *lv
+	}
 	if c := eng.ContractFor(fn); c != nil && !c.Inline {
 		var res Val
 		if len(fn.FreeVars) > 0 && len(bindings) == len(fn.FreeVars) {
@@ -533,6 +536,9 @@ func (fr *Frame) moduleOwnedComp(name string) bool {
 	}
 	if name == chanClosedComp {
 		return false
+	}
+	if strings.HasPrefix(name, "Ghost.") {
+		return true // specification-only attributes change only where a contract says so
 	}
 	for key, p := range fr.R.Eng.TypePkgs {
 		if !strings.HasPrefix(key, "name:") || !fr.R.Eng.InModule(p) {
@@ -787,6 +793,7 @@ func (fr *Frame) applyContractVars(c *Contract, fn *ssa.Function, cc *ssa.CallCo
 		goal := Implies(fr.cur, ctx.Bool(rq.E))
 		fr.R.addObl("requires@"+shortName(c.Name), rq.Label, goal, rq.Src, &rq, pos)
 	}
+	fr.checkHoldsAtCall(c, vars, pos)
 	pre := fr.st.Clone()
 	// objects the callee allocates lie above the caller's watermark
 	fr.bumpTop()
@@ -809,6 +816,18 @@ func (fr *Frame) applyContractVars(c *Contract, fn *ssa.Function, cc *ssa.CallCo
 		pctx := &EvalCtx{fr: fr, st: pre, vars: vars, pkgPath: c.PkgPath, contract: c}
 		for _, m := range c.Modifies {
 			fr.havocTarget(pctx, m)
+		}
+	}
+	// a callee that takes a monitored mutex leaves the state it protects arbitrary (for callers not holding it)
+	if fn != nil && !c.ModAll {
+		for _, m := range fr.R.Eng.DB.Monitors {
+			if m.Kind != "lock" || fr.st.locks[m.Name] != nil || !fr.R.Eng.isLockSection(m, fn) {
+				continue
+			}
+			for _, comp := range fr.R.protectedComps(fr, m) {
+				fr.R.Heap.Havoc(fr.st, comp)
+				fr.R.lockTouched[comp] = true
+			}
 		}
 	}
 	// captured variables written by a closure callee are refreshed: the closure contract speaks for them
@@ -949,6 +968,17 @@ func (fr *Frame) havocTarget(ctx *EvalCtx, e Expr) {
 			return
 		case "chanState":
 			h.Havoc(fr.st, chanClosedComp)
+			return
+		case "ghostOf":
+			var x EV
+			ctx.withFrameState(func() { x = ctx.eval(e.Args[1]) })
+			name := ghostComp(e.Args[0])
+			arr := h.Get(fr.st, name, ArraySort(SInt, SBool))
+			h.Set(fr.st, name, fr.define("h", Store(arr, ctx.term(x), fr.R.Sc.FreshConst("gh", SBool))))
+			return
+		case "ghosts":
+			h.register(ghostComp(e.Args[0]), ArraySort(SInt, SBool))
+			h.Havoc(fr.st, ghostComp(e.Args[0]))
 			return
 		case "allElems":
 			ty, err := fr.R.Eng.ResolveType(typeExprString(e.Args[0]), ctx.pkgPath)
